@@ -12,7 +12,7 @@ CLAIMED = {
          'Trusts vlib/optab.py (self-tested on hand cases; deliberately not shunting-yard); spellings unique within a kind; tables <= 5 rows (+2 mixfix).'),
  'C03': ('PBT: exhaustive bounds x options x contexts matrix on all short inputs; reference interpreter + direct bound/trailer invariants; hypothesis nesting',
          'Generated-input search: the full matrix {e{n},e{m,n},e{m,},e{,n}: 0<=m<=n<=3} x 5 element kinds x 5 ways of supplying the bound (literal, let, inline python, template parameter, class field) x 9 enclosing contexts and Sep x 12 option combinations x elements x separators x contexts is enumerated on all inputs of length <=4/5 over {a,b,",",Z} and compared with the reference interpreter; bounds and trailer invariants are also checked directly on the output; the 4 invalid Sep option combinations must be rejected. Hypothesis adds nested combinations.',
-         'Trusts vlib/peg.py (Appendix A); symbolic bounds keep m<=n (F22 out of domain); bounds 0..3.'),
+         'Trusts vlib/peg.py (Appendix A); bounds 0..3, incl. contradictory symbolic bounds (m > n at parse time must fail).'),
  'C01': ('PBT: differential against a reference PEG interpreter (exhaustive shapes x all short inputs + hypothesis grammars)',
          'Generated-input search: every depth<=1 core expression in 13 exposing parent contexts, a seeded stride through all depth-2 shapes and hypothesis multi-rule grammars (text+bytes) are compared on all short inputs with an independent naive PEG interpreter; bounds stated in evidence. Finds wrong static flags / missing restores; proves nothing beyond the explored bounds.',
          'Trusts vlib/peg.py reference semantics (DESIGN Appendix A, self-tested on hand cases); alphabet {a,b,Z}, inputs <= 5 (9 sampled), depth <= 5.'),
